@@ -8,7 +8,7 @@ use crate::opt::{run_script, OptCfg, WorsePolicy};
 use crate::props::c07::count_worse_trials;
 
 pub const TITLE: &str = "The temperature follows the requested annealing schedule";
-pub const RULE: &str = "cases = kt_start log-uniform in [1e-3,10] (or 0), one cooling factor per loop f in [0.3,1] (a sixth of the finish-path cases: f log-uniform in [1e-20,1e-1], measured from a score re-centred to exactly 0 after every accepted move) given either as kt_ratio = 1-f or as kt_finish = kt_start f^L, L in 1..12 inner loops of 1000 or 4000 steps (thorough: 8000/20000), steps = L*inner plus an optional remainder; for L <= 5 optionally with a convergence threshold that every loop meets (it cannot end such a run and must not alter the schedule). Synthetic state with 8 parameters, max_step 1e-3 (no clamping); in loop i every proposal is worse by d_i = ln2 * kt_start f^(i-1), so a correct schedule accepts about half of them in every loop and a wrong one drifts to 0 or 1. Per loop the acceptance frequency gives a 6-sigma interval for kT_i = -d_i / ln p. Checked: first and second half of each loop agree (constant kT within a loop); kT_1 = kt_start; ratio path: kT_i = kt_start (1-ratio)^(i-1) for all i; finish path: one factor g explains all loops and puts the last loop within one cooling step of kt_finish (kt_finish*g <= kT_L <= kt_finish/g); kt_start = 0: no worse move accepted in any loop. Non-trivial = L >= 3; distinct by hash of the case.";
+pub const RULE: &str = "cases = kt_start log-uniform in [1e-3,10] (or 0), one cooling factor per loop f in [0.3,1] (a sixth of the finish-path cases: f log-uniform in [1e-20,1e-1], measured from a score re-centred to exactly 0 after every accepted move) given either as kt_ratio = 1-f or as kt_finish = kt_start f^L, L in 1..12 inner loops of 1000 or 4000 steps (thorough: 8000/20000), steps = L*inner plus an optional remainder; for L <= 5 optionally with a convergence threshold that every loop meets (it cannot end such a run and must not alter the schedule). Synthetic state with 8 parameters, max_step 1e-3 (no clamping); in loop i every proposal is worse by d_i = ln2 * kt_start f^(i-1), so a correct schedule accepts about half of them in every loop and a wrong one drifts to 0 or 1. Per loop the acceptance frequency gives a 6-sigma interval for kT_i = -d_i / ln p. Checked: first and second half of each loop agree (constant kT within a loop); kT_1 = kt_start; ratio path: kT_i = kt_start (1-ratio)^(i-1) for all i; finish path: one factor g explains all loops and puts the last loop within one cooling step of kt_finish (kt_finish*g <= kT_L <= kt_finish/g); kt_start = 0: no worse move accepted in any loop. Non-trivial = L >= 3; distinct by hash of the case. A third of the ratio-path cases also pass a finishing temperature (0 or 1e-4..10), which must be ignored.";
 
 pub fn assumptions() -> Vec<&'static str> {
     vec![
@@ -34,6 +34,9 @@ pub struct SchedCase {
     /// from a score kept at exactly 0 so that differences of 1e-200 remain representable
     #[serde(default)]
     pub extreme_exp: Option<f64>,
+    /// ratio path only: a finishing temperature given as well (the ratio decides, the finishing temperature is ignored)
+    #[serde(default)]
+    pub also_finish: Option<f64>,
 }
 
 fn strat(_: &Ctx) -> BoxedStrategy<SchedCase> {
@@ -47,10 +50,11 @@ fn strat(_: &Ctx) -> BoxedStrategy<SchedCase> {
         any::<u64>(),
         prop_oneof![2 => Just(false), 1 => Just(true)],
         prop_oneof![5 => Just(None), 1 => (-20.0..-1.0f64).prop_map(Some)],
+        prop_oneof![2 => Just(None), 1 => (-4.0..1.0f64).prop_map(|e| Some(10f64.powf(e))), 1 => Just(Some(0.))],
     )
-        .prop_map(|(kt_start, f, by_ratio, loops, big_inner, remainder, seed, with_convergence, extreme_exp)| match extreme_exp {
-            Some(e) if kt_start > 0. => SchedCase { kt_start, f: 10f64.powf(e), by_ratio: false, loops, big_inner, remainder, seed, with_convergence, extreme_exp },
-            _ => SchedCase { kt_start, f, by_ratio, loops, big_inner, remainder, seed, with_convergence, extreme_exp: None },
+        .prop_map(|(kt_start, f, by_ratio, loops, big_inner, remainder, seed, with_convergence, extreme_exp, also_finish)| match extreme_exp {
+            Some(e) if kt_start > 0. => SchedCase { kt_start, f: 10f64.powf(e), by_ratio: false, loops, big_inner, remainder, seed, with_convergence, extreme_exp, also_finish: None },
+            _ => SchedCase { kt_start, f, by_ratio, loops, big_inner, remainder, seed, with_convergence, extreme_exp: None, also_finish: if by_ratio { also_finish } else { None } },
         })
         .boxed()
 }
@@ -81,7 +85,7 @@ fn oracle(c: &SchedCase, rec: &Rec, ctx: &Ctx) -> Result<(), String> {
     };
     let l = c.loops;
     let steps = l * inner + c.remainder.min(inner - 1);
-    let (kt_ratio, kt_finish) = if c.by_ratio { (Some(1. - c.f), None) } else { (None, Some(c.kt_start * c.f.powi(l as i32))) };
+    let (kt_ratio, kt_finish) = if c.by_ratio { (Some(1. - c.f), c.also_finish) } else { (None, Some(c.kt_start * c.f.powi(l as i32))) };
     let convergence = if c.with_convergence && l <= 5 { Some(1e9) } else { None };
     let cfg = OptCfg { steps, inner, kt_start: c.kt_start, kt_finish, kt_ratio, max_step: 1e-3, convergence, seed: c.seed };
     let zero = c.kt_start == 0.;
@@ -167,7 +171,7 @@ fn oracle(c: &SchedCase, rec: &Rec, ctx: &Ctx) -> Result<(), String> {
         }
     }
     let nt = l >= 3;
-    let class = format!("{}{}/L{}", if zero { "kT0" } else if c.by_ratio { "ratio" } else if c.extreme_exp.is_some() { "finish-extreme-factor" } else { "finish" }, if c.remainder > 0 { "/non-multiple" } else { "" }, if l >= 3 { ">=3" } else { "<3" });
+    let class = format!("{}{}/L{}", if zero { "kT0" } else if c.by_ratio && c.also_finish.is_some() { "ratio-and-finish-given" } else if c.by_ratio { "ratio" } else if c.extreme_exp.is_some() { "finish-extreme-factor" } else { "finish" }, if c.remainder > 0 { "/non-multiple" } else { "" }, if l >= 3 { ">=3" } else { "<3" });
     rec.class(&class);
     if nt {
         rec.nontrivial(hash_json(&serde_json::to_value(c).unwrap()));
